@@ -179,7 +179,7 @@ func (s *Session) newVotedMsg(vc *voteCtx, kind string, proposerBech string) (*v
 	payload := fmt.Sprintf("p%d", n)
 	switch kind {
 	case "NewBlockHashes":
-		nh := 1 + s.R.Intn(2)
+		nh := s.R.Intn(3) // an empty batch is a valid proposal too: it moves nothing but consumes its sequence number
 		m := &bitcointypes.MsgNewBlockHashes{Proposer: proposerBech, StartBlockNumber: vc.Tip + 1}
 		for i := 0; i < nh; i++ {
 			m.BlockHash = append(m.BlockHash, hash32([]byte(payload), []byte(s.C.ChainID), []byte{byte(i)}))
